@@ -111,7 +111,12 @@ def case_fn(rng, cid):
     dep_expr = {"gen": "addr(deps)", "impl": "addr(deps)", "nodeps": "0usize", "conc": "addr(deps)", "gen_val": "deps.a() as usize"}[dk]
     gens = {"gen": "<D: A>", "gen_val": "<D: A>"}.get(dk, "<X: Into<i64> + Copy + Send + Sync>" if extra_gen else "")
     attr = "Tr" + (", no_deps" if dk == "nodeps" else "")
-    fn = "%sfn f%s(%s) -> i64 %s" % ("async " if asy else "", gens, ", ".join(dep_decl + decls), body("f", dep_expr, vals))
+    fbody = body("f", dep_expr, vals)
+    if asy and dk == "conc" and not extra_gen and rng.random() < 0.5:
+        # `?Send`: the future may hold a non-Send value across an await point, also through the nested leaf-trait expansion
+        attr += ", ?Send"
+        fbody = "{ let keep = std::rc::Rc::new(1i64); std::future::ready(()).await; let r = " + fbody + "; r + *keep - 1 }"
+    fn = "%sfn f%s(%s) -> i64 %s" % ("async " if asy else "", gens, ", ".join(dep_decl + decls), fbody)
     w = "block_on(%s)" if asy else "%s"
     if dk == "conc":
         # C05: the concrete type itself, Impl<C>, and Impl<Other> with a hand-written impl for Other
